@@ -63,6 +63,8 @@ def derived(G, M, nodes, wins):
 
 def run_case(case, rec):
     d = Driver(case)
+    sched = common.observe_schedule(case)
+    rec.classify('queries after: ' + sched)
     stop = False
     for i, op in enumerate(case['ops']):
         r = d.step(op)
@@ -70,7 +72,7 @@ def run_case(case, rec):
             rec.note('outcome_mismatch(left to C01)')
             stop = True
             break
-        if op[0] in ADD_OPS and r['actual'] == 'ok':
+        if op[0] in ADD_OPS and r['actual'] == 'ok' and common.due(sched, i, len(case['ops']) - 1):
             common.check_timelines(rec, 'C03', d.G, d.M, ctx='after op %d %r' % (i, op))
     for c in d.classes:
         rec.classify(c)
